@@ -375,6 +375,10 @@ def gen_axes(rng):
     dla = float(rng.choice([0.25, 0.5, 1.0, 2.5]))
     dlo = float(rng.choice([0.25, 0.5, 1.0, 2.5]))
     lats = [la0 + dla * k for k in range(nla)]
+    if rng.random() < 0.2:
+        # ERA5's native 0..360 longitude convention, often a regional file straddling the antimeridian (…178, 180, 182…):
+        # the domain is what the file's axis says it is; points far from it are outside whatever the convention (seed C16_4)
+        lo0 = float(rng.choice([180.0 - dlo * (nlo // 2), 181.0, 200.0, 340.0, 180.0 - dlo * (nlo - 1)]))
     lons = [lo0 + dlo * k for k in range(nlo)]
     if rng.random() < 0.6:
         lats = lats[::-1]  # ERA5 order
@@ -656,6 +660,10 @@ def main(ctx):
                 evaluate(ctx, env, w, gen_queries(r2, w, 80), register=False)
             ctx.extra['widened_search'] = {'worlds': len(seen[:4]) + 4, 'found_failing_input': bool(ctx.violations)}
             del ctx.divergences[n_before + 50:]
+        from harness import kernels
+
+        kernels.check_sym(ctx, files={'weather.py'})
+        kernels.check(ctx, files={'utils/standard_atmosphere.py'}, n=40)
         na, ni = all_variants.count('as_is'), all_variants.count('intended')
         ctx.extra['variant_counts'] = {v: all_variants.count(v) for v in ('as_is', 'intended', 'both', 'neither')}
         if na and ni:
